@@ -627,6 +627,44 @@ def flushSt (st : St) : Res St := do
   let t ← flush st.tree
   pure { st with tree := t }
 
+/-! ### specification vocabulary: offers and claims -/
+
+/-- The handlers bound do not mutate the tree: every entry of every behaviour table has no actions. -/
+def Static (binds : Array Binding) : Prop :=
+  ∀ (i : Nat) (b : Binding), binds[i]? = some b → ∀ e ∈ b.entries, e.actions = []
+
+/-- Offer an event to the bindings with the given indices, in order, until one claims: the invocation counters
+    afterwards and whether one claimed. -/
+def offerBindings (binds : Array Binding) : List Nat → Array Binding × Bool
+  | [] => (binds, false)
+  | bi :: rest =>
+    match binds[bi]? with
+    | none => offerBindings binds rest
+    | some b =>
+      let binds' := binds.setIfInBounds bi { b with count := b.count + 1 }
+      if b.entry.ret then (binds', true) else offerBindings binds' rest
+
+/-- Offer an event to one window. -/
+def offerOne (binds : Array Binding) (kind : Kind) (win : Id) : Array Binding × Bool :=
+  offerBindings binds (bindingsOf binds kind win)
+
+/-- Offer to the windows of the list, in order, stopping at the first that claims: the counters afterwards, the
+    offers actually made, and the window that claimed. -/
+def offerAll (binds : Array Binding) (kind : Kind) : List (Id × Ev) → Array Binding × List (Id × Ev) × Option Id
+  | [] => (binds, [], none)
+  | (w, e) :: rest =>
+    let r := offerOne binds kind w
+    if r.2 then (r.1, [(w, e)], some w)
+    else
+      let q := offerAll r.1 kind rest
+      (q.1, (w, e) :: q.2.1, q.2.2)
+
+/-- The offers recorded in a log, oldest first. -/
+def offers : List LogItem → List (Kind × Id × Ev)
+  | [] => []
+  | .offer k w e :: rest => offers rest ++ [(k, w, e)]
+  | _ :: rest => offers rest
+
 /-! ### specification vocabulary: the reference offer orders of the property text -/
 
 /-- `id` is live and visible, and so is every window on its parent chain. -/
@@ -649,6 +687,29 @@ def visitList {α : Type} (g : Id → Option (List α)) : List Id → Option (Li
     let b ← visitList g cs
     pure (a ++ b)
 
+/-- Does the window steal input? -/
+def stealAt (t : Tree) (id : Id) : Bool :=
+  match t.wins[id]? with
+  | some w => w.stealInput
+  | none => false
+
+/-- The three groups of children a key is offered to, given the function `g` for a child's own subtree:
+    the stealing front-most child, … -/
+def stealVisits (t : Tree) (g : Id → Option (List Id)) (w : Win) : Option (List Id) :=
+  match w.children.head? with
+  | some fc => if stealAt t fc then g fc else some []
+  | none => some []
+
+/-- … the focus chain, … -/
+def focusVisits (g : Id → Option (List Id)) (w : Win) : Option (List Id) :=
+  match w.focusedChild with
+  | some fc => g fc
+  | none => some []
+
+/-- … and (after the window itself) the children other than the focused one. -/
+def restVisits (g : Id → Option (List Id)) (w : Win) : Option (List Id) :=
+  visitList (fun c => if w.focusedChild = some c then some [] else g c) w.children
+
 /-- The windows a key event is offered to below and including `win`, in order, *as the code visits them* (a
     stealing first child is visited by the steal rule and again by the loop over the children): nothing if `win` or
     one of its ancestors is hidden; otherwise the stealing front-most child, the focus chain innermost first, the
@@ -660,15 +721,9 @@ def keyVisits (t : Tree) : Nat → Id → Option (List Id)
     | none => some []
     | some w =>
       if !visibleChain t (treeFuel t) win then some [] else do
-      let steal ← match w.children.head? with
-        | some fc => (match t.wins[fc]? with
-          | some fw => if fw.stealInput then keyVisits t f fc else some []
-          | none => some [])
-        | none => some []
-      let foc ← match w.focusedChild with
-        | some fc => keyVisits t f fc
-        | none => some []
-      let rest ← visitList (fun c => if w.focusedChild = some c then some [] else keyVisits t f c) w.children
+      let steal ← stealVisits t (keyVisits t f) w
+      let foc ← focusVisits (keyVisits t f) w
+      let rest ← restVisits (keyVisits t f) w
       pure (steal ++ foc ++ [win] ++ rest)
 
 /-- The reference offer order for a key event: first occurrences of `keyVisits`. -/
@@ -676,6 +731,13 @@ def keyOrder (t : Tree) (fuel : Nat) (win : Id) : Option (List Id) := (keyVisits
 
 /-- Is the cell inside the child's rectangle (cell in the parent's coordinates)? -/
 def inChild (cw : Win) (line col : Int) : Bool := !outsideChild cw line col
+
+/-- What a mouse event is offered to below one child (given the function `g` for the child's own subtree):
+    the child's subtree if the child steals input or is under the pointer. -/
+def childVisits (t : Tree) (g : Id → Ev → Option (List (Id × Ev))) (ev : Ev) (c : Id) : Option (List (Id × Ev)) :=
+  match t.wins[c]? with
+  | some cw => if cw.stealInput || inChild cw ev.line ev.col then g c (ev.toChild cw) else some []
+  | none => some []
 
 /-- The windows a mouse event `ev` (position in `win`'s coordinates) is offered to below and including `win`, with
     the event as each of them sees it: nothing if `win` or an ancestor is hidden; otherwise the children under the
@@ -687,10 +749,7 @@ def mouseVisits (t : Tree) : Nat → Id → Ev → Option (List (Id × Ev))
     | none => some []
     | some w =>
       if !visibleChain t (treeFuel t) win then some [] else do
-      let below ← visitList (fun c =>
-        match t.wins[c]? with
-        | some cw => if cw.stealInput || inChild cw ev.line ev.col then mouseVisits t f c (ev.toChild cw) else some []
-        | none => some []) w.children
+      let below ← visitList (childVisits t (mouseVisits t f) ev) w.children
       pure (below ++ [(win, ev)])
 
 /-- The windows of the subtree of `win` (through the children lists). -/
